@@ -304,6 +304,8 @@ func (s mStep) coq() string {
 		return "HFinish"
 	case "ending":
 		return "HEnding"
+	case "other":
+		return "HOther"
 	case "connret":
 		return "HConnectRet " + coqBool(s.Ok)
 	case "restret":
@@ -366,6 +368,13 @@ func (g *monRig) exec(s mStep) mObs {
 			code = datatransfer.DataReceived
 		}
 		g.api.deliver(code, g.state(false, g.chid))
+	case "other":
+		// announcements that are neither transfer progress, nor errors, nor endings: queued data, vouchers,
+		// pauses, restarts, ... leave the monitor's bookkeeping alone
+		codes := []datatransfer.EventCode{datatransfer.DataQueued, datatransfer.DataQueuedProgress, datatransfer.DataSentProgress, datatransfer.DataReceivedProgress,
+			datatransfer.NewVoucher, datatransfer.NewVoucherResult, datatransfer.PauseResponder, datatransfer.ResumeResponder, datatransfer.PauseInitiator,
+			datatransfer.ResumeInitiator, datatransfer.Restart, datatransfer.Opened, datatransfer.TransferInitiated, datatransfer.Disconnected, datatransfer.DataLimitExceeded}
+		g.api.deliver(codes[g.r.intn(len(codes))], g.state(false, g.chid))
 	case "accept":
 		g.api.deliver(datatransfer.Accept, g.state(false, g.chid))
 		if !pre.Shut {
@@ -591,6 +600,9 @@ func (s *monSuite) runCase(id int, label string, cfg mCfg, seed uint64, plan mon
 				fail("ending-not-forgotten", "after an event with a cleaning-up/terminal state the monitor did not unsubscribe and forget the channel", where)
 			}
 		}
+		if st.Kind == "other" && (o.Consec != pre.Consec || o.Connects != pre.Connects || o.Restarts != pre.Restarts || o.Closes != pre.Closes) {
+			fail("bookkeeping-moved-by-unrelated-event", "an announcement that is neither transfer progress, an error nor an ending changed the monitor's restart bookkeeping (data progress is data sent or received)", where)
+		}
 		if st.Kind == "data" && !pre.Shut {
 			connectsAtData = o.Connects
 			if o.Consec != 0 {
@@ -672,6 +684,8 @@ func genMonWalk(n int) monPlan {
 				st = mStep{Kind: "finish"}
 			case x < 97 && i > 3:
 				st = mStep{Kind: "ending"}
+			case x >= 97:
+				st = mStep{Kind: "other"}
 			default:
 				continue
 			}
@@ -750,6 +764,13 @@ func runMonitor(dir string, seed uint64, tier string) {
 			steps = append(steps, E, cOK, rOK)
 		}
 		add("data-resets", mCfg{Max: max, Debounce: time.Millisecond}, fixedPlan(steps), false)
+		// ... and only data that was sent or received: queued data, vouchers, pauses between the attempts
+		// do not, so the bound is reached
+		var os []mStep
+		for k := 0; k <= max+1; k++ {
+			os = append(os, E, cOK, rOK, mStep{Kind: "other"}, mStep{Kind: "other"})
+		}
+		add("other-events-do-not-reset", mCfg{Max: max, Debounce: time.Millisecond}, fixedPlan(os), false)
 	}
 	// (d) timers: accept / complete, enabled short, with and without the awaited event, shutdown first
 	nTimer := 0
